@@ -96,7 +96,10 @@ def json_value(r, depth=0):
         # a numpy array as a value (what array-producing code hands over)
         return r.choice([np.array(['k__A', 'p__é']), np.array([1, 2, 3]),
                          np.array([0.5, 2.5e-7]), np.array([], dtype=float),
-                         np.array([[1, 2], [3, 4]])])
+                         np.array([[1, 2], [3, 4]]),
+                         # one element is still a sequence of one
+                         np.array(['k__Archaea']), np.array([7]),
+                         np.array([[2.5]]), np.array([True])])
     if depth < 2:
         return [json_value(r, depth + 1) for _ in range(r.randint(0, 3))]
     return wild(r, 0, 3)
